@@ -190,12 +190,22 @@ class ArgParseFamily:
         samples += [self.sample(got[k]) for k in (0, rn // 3, 2 * rn // 3) if rn]
         ctx.log('validated %d recorded random scenarios: %d disagree on %s; %d in the property\'s domain; model drift %d; error-message wording compared %d, differing %d'
                 % (rn, len(bad[prop]), prop, domcount, drift, msgcmp, msgdrift))
+        # 3b: the property seen through the other API entry points
+        cross = {'C04': ('C16', 'help requests through ParseArgs at every terminal width (help family)'),
+                 'C06': ('C05', 'required options across INI reads, as-defaults reads, environment and several parses (session family)')}.get(prop)
+        if cross:
+            xfam = PROPS[cross[0]]
+            xbad, xstats, xn, xlines, xtrees = xfam.random_part(ctx, prop, 'sources' if prop == 'C06' else 'help')
+            for i in xbad[prop][:50]:
+                bad_all.append(('x' + xfam.fam, i, xlines[i - 1], xtrees))
+            rn += xn
+            ctx.log('validated %d recorded scenarios of the %s: %d disagree on %s' % (xn, cross[1], len(xbad[prop]), prop))
         # 4: classify
         viol = 0
         known_hits = {}
         for src, i, line, trees in bad_all:
             r = json.loads(line)
-            kf = self.classify(ctx, r, line, trees)
+            kf = self.classify(ctx, r, line, trees) if 'argv' in r else None
             if kf:
                 known_hits.setdefault(kf['name'], [0, kf])[0] += 1
                 continue
@@ -203,7 +213,10 @@ class ArgParseFamily:
             if viol <= 5:
                 path = ctx.save_replay('%s%d' % (src, i), line, trees[r['decl'] - 1])
                 print('VIOLATION property=%s replay=%s' % (prop, path), flush=True)
-                print('  argv=%s popts=%s obs.errType=%s' % ([cps2s(t) for t in r['argv']], r['popts'], r['obs']['errType']), flush=True)
+                if 'argv' in r:
+                    print('  argv=%s popts=%s obs.errType=%s' % ([cps2s(t) for t in r['argv']], r['popts'], r['obs']['errType']), flush=True)
+                else:
+                    print('  ' + json.dumps({k: v for k, v in r.items() if k not in ('obs',)}, ensure_ascii=False)[:500], flush=True)
         for name, (cnt, kf) in known_hits.items():
             print('KNOWN-FINDING: property=%s %s (%d scenarios of this run)' % (prop, kf['what_fails'], cnt), flush=True)
         cov = {
@@ -249,6 +262,8 @@ class ArgParseFamily:
     def replay(self, ctx, path):
         obj = json.load(open(path))
         rec = obj['record']
+        if rec.get('fam') in ('help', 'session'):            # the record of a cross-family part (C04 help requests, C06 sessions)
+            return PROPS['C16' if rec['fam'] == 'help' else 'C05'].replay(ctx, path)
         tree = obj['tree']
         tree['id'] = 1
         rec['decl'] = 1
@@ -442,7 +457,7 @@ class ClosestFamily(SimpleFamily):
 # Session family (Ini.tla + ArgParse.tla): C05 C12 C13 C14 C15(ini part)
 # ---------------------------------------------------------------------------------------------
 
-SESSION_PROPS = ['C05', 'C12', 'C13', 'C14', 'C15', 'DRIFT']
+SESSION_PROPS = ['C05', 'C06', 'C12', 'C13', 'C14', 'C15', 'DRIFT']
 SESSION = {
     # prop: (mc module, mode, decls quick, decls thorough, maxlines quick/thorough, generator kind, domain stat key)
     'C14': dict(mc='MC_Ini', mode='read', decls=([1, 11], [1, 3, 11]), maxlines=(2, 3), kind='robust', dom='ini', invs='ReadInvariants'),
@@ -806,7 +821,7 @@ class CompletionFamily(SessionFamily):
 class HelpFamily(SessionFamily):
     fam = 'help'
     trace = 'Trace_Help'
-    props = ['C16', 'C17', 'C15', 'DRIFT']
+    props = ['C16', 'C17', 'C15', 'C04', 'DRIFT']
     assumptions = [
         'the verdict predicates (LayoutOK, ContentOK, ManOK of HelpProps.tla) are evaluated on the real text; the specification supplies the visible items, their texts and the description column',
         'the man page is judged on presence of every visible option and command by name and absence of everything hidden or masked (it never prints choices, positional arguments or the env key next to a default)',
